@@ -9,6 +9,8 @@ from props import common
 GT = 'sqlparse.sql.TokenList.group_tokens'
 TREE_FUNCS = [(GT, 'new group'), (GT, 'extend flag'), ('sqlparse.sql.TokenList.__init__', 'body'),
               ('sqlparse.sql.Token.__init__', 'body')]
+GM = 'sqlparse.engine.grouping._group_matching'
+MATCHER_FUNCS = [(GM, c) for c in ('Parenthesis', 'SquareBrackets', 'Case', 'If', 'For', 'Begin')]
 NAV_FUNCS = [('sqlparse.sql.TokenList._token_matching', 'forward, end=None'),
              ('sqlparse.sql.TokenList._token_matching', 'reverse'),
              ('sqlparse.sql.TokenList.token_next', 'forward'), ('sqlparse.sql.TokenList.token_next', 'reverse (token_prev)'),
